@@ -614,8 +614,11 @@ class Subst(CorruptFamily):
     def generate(self, rng, tier):
         n_any, n_valid = (2, 1) if tier == "quick" else (16, 6)
         for desc, valid in base_cases(rng, n_any, n_valid, tiny_p=0.7):
-            yield {"desc": desc, "env": pick_env(rng, valid), "vals": [rng.choice([1, 2, 0x80, 0xFF, 0x40, 0x20]), 0x80 if rng.random() < 0.5 else 0xFF, rng.randrange(1, 256)],
-                   "stride": 1, "coq_stride": 16 if tier == "quick" else 6}
+            vals = [rng.choice([1, 2, 0x80, 0xFF, 0x40, 0x20]), 0x80 if rng.random() < 0.5 else 0xFF, rng.randrange(1, 256)]
+            if tier == "quick":
+                vals = vals[:1] + vals[2:]      # two values per position in the quick tier
+            yield {"desc": desc, "env": pick_env(rng, valid), "vals": vals,
+                   "stride": 1, "coq_stride": 20 if tier == "quick" else 6}
 
     def edits(self, case, base):
         lay = Layout(base)
@@ -695,7 +698,7 @@ class Multi(CorruptFamily):
         n_any, n_valid = (6, 2) if tier == "quick" else (60, 20)
         for desc, valid in base_cases(rng, n_any, n_valid, tiny_p=0.6):
             yield {"desc": desc, "env": pick_env(rng, valid), "seed": rng.randrange(2 ** 30),
-                   "n_random": 100 if tier == "quick" else 400}
+                   "n_random": 60 if tier == "quick" else 400}
 
     def edits(self, case, base):
         """-> (layout, [ [ (pos, bytes) ... ] ... ]) : each edit is a list of (offset, replacement)."""
